@@ -20,7 +20,10 @@ import (
 	sdkmath "cosmossdk.io/math"
 	sdk "github.com/cosmos/cosmos-sdk/types"
 	stakingtypes "github.com/cosmos/cosmos-sdk/x/staking/types"
+	"github.com/cosmos/cosmos-sdk/x/authz"
 	"github.com/ethereum/go-ethereum/common"
+
+	evmtypes "github.com/haqq-network/haqq/x/evm/types"
 
 	"verif/harness/calltree"
 	"verif/harness/engine"
@@ -31,7 +34,10 @@ import (
 
 const Prop = "C04"
 
-const delegateURL = "/cosmos.staking.v1beta1.MsgDelegate"
+const (
+	delegateURL   = "/cosmos.staking.v1beta1.MsgDelegate"
+	undelegateURL = "/cosmos.staking.v1beta1.MsgUndelegate"
+)
 
 type env struct {
 	f *c05.Fixture
@@ -352,6 +358,7 @@ func posClass(p string) string {
 // ---- part B: allowance histories ------------------------------------------------------------------
 
 type grantView struct {
+	expiry    int64
 	exists    bool
 	unlimited bool
 	limit     sdkmath.Int
@@ -359,10 +366,18 @@ type grantView struct {
 	vals      map[string]bool
 }
 
-func (e *env) grantOf() grantView {
+func (e *env) grantOf() grantView { return e.grantOfURL(delegateURL) }
+
+func (e *env) grantOfURL(url string) grantView {
 	w, f := e.w, e.f
-	ctx := w.Ctx()
-	a, exp := w.App.AuthzKeeper.GetAuthorization(ctx, e.acc("C"), w.Addrs[f.S], delegateURL)
+	// read the stored grant directly (GetAuthorization hides expired ones)
+	var a authz.Authorization
+	var exp *time.Time
+	for _, g := range mustGrants(w, e.acc("C"), w.Addrs[f.S]) {
+		if g.auth.MsgTypeURL() == url {
+			a, exp = g.auth, g.exp
+		}
+	}
 	if a == nil {
 		return grantView{}
 	}
@@ -384,7 +399,29 @@ func (e *env) grantOf() grantView {
 	if exp != nil && !exp.After(w.Header.Time) {
 		g.expired = true
 	}
+	if exp != nil {
+		g.expiry = exp.Unix()
+	}
 	return g
+}
+
+type storedGrant struct {
+	auth authz.Authorization
+	exp  *time.Time
+}
+
+func mustGrants(w *world.World, grantee, granter sdk.AccAddress) []storedGrant {
+	var out []storedGrant
+	w.App.AuthzKeeper.IterateGrants(w.Ctx(), func(gr, ge sdk.AccAddress, g authz.Grant) bool {
+		if gr.Equals(granter) && ge.Equals(grantee) {
+			a, err := g.GetAuthorization()
+			if err == nil {
+				out = append(out, storedGrant{a, g.Expiration})
+			}
+		}
+		return false
+	})
+	return out
 }
 
 func (g grantView) String() string {
@@ -400,7 +437,7 @@ func (g grantView) String() string {
 		vs = append(vs, v[len(v)-4:])
 	}
 	sort.Strings(vs)
-	return fmt.Sprintf("limit=%s vals=%v expired=%v", l, vs, g.expired)
+	return fmt.Sprintf("limit=%s vals=%v expired=%v expiry=%d", l, vs, g.expired, g.expiry)
 }
 
 func (e *env) delegated(v sdk.ValAddress) sdkmath.Int {
@@ -413,21 +450,29 @@ func (e *env) delegated(v sdk.ValAddress) sdkmath.Int {
 	return val.TokensFromShares(d.Shares).TruncateInt()
 }
 
-func (e *env) sendTx(to common.Address, data []byte) uint32 {
+// sendTx delivers the signer's transaction and reports whether it succeeded (code 0 and no VM error).
+func (e *env) sendTx(to common.Address, data []byte) bool {
 	w, f := e.w, e.f
 	nonce := w.App.AccountKeeper.GetAccount(w.Ctx(), w.Addrs[f.S]).GetSequence()
 	bz, err := world.WrapEth(w.SignEth(w.Keys[f.S], world.EthSpec{Nonce: nonce, Gas: 10000000, To: &to, GasPrice: big.NewInt(0), Data: data}))
 	if err != nil {
 		panic(err)
 	}
-	return w.Deliver(bz).Code
+	r := w.Deliver(bz)
+	if r.Code != 0 {
+		return false
+	}
+	if tr, err := evmtypes.DecodeTxResponse(r.Data); err == nil && tr.Failed() {
+		return false
+	}
+	return true
 }
 
 func (e *env) opsB(w *world.World, depth int, path []string) []engine.Op {
 	f := e.f
 	st := f.ABIs.Staking
 	cAddr := world.ContractAddr(0x10)
-	urls := []string{delegateURL}
+	urls := []string{delegateURL, undelegateURL}
 	var out []engine.Op
 	add := func(name string, fn func(p []string, res *engine.Result) string) {
 		out = append(out, engine.Op{Name: name, Apply: func(w *world.World, p []string, res *engine.Result) string { return fn(p, res) }})
@@ -435,17 +480,29 @@ func (e *env) opsB(w *world.World, depth int, path []string) []engine.Op {
 	authOp := func(name, method string, amt int64) {
 		add(name, func(p []string, res *engine.Result) string {
 			pre := e.grantOf()
+			if amt < 0 { // "all": exactly the current limit
+				if !pre.exists || pre.unlimited || !pre.limit.IsPositive() {
+					return "skip"
+				}
+				amt = pre.limit.Int64()
+			}
 			var data []byte
 			if method == "revoke" {
 				data = precomp.MustPack(st, method, cAddr, urls)
 			} else {
 				data = precomp.MustPack(st, method, cAddr, big.NewInt(amt), urls)
 			}
-			e.sendTx(precomp.StakingAddr, data)
+			okTx := e.sendTx(precomp.StakingAddr, data)
 			post := e.grantOf()
 			res.Evaluations++
 			bad := func(what string) {
-				res.AddViolation(engine.Violation{Signature: "C04|op=" + method + "|breach=allowance-arithmetic", What: what, Path: p, Detail: map[string]any{"before": pre.String(), "after": post.String()}})
+				res.AddViolation(engine.Violation{Signature: "C04|op=" + method + "|breach=allowance-arithmetic", What: what, Path: p, Detail: map[string]any{"before": pre.String(), "after": post.String(), "tx_ok": okTx}})
+			}
+			if !okTx {
+				if post.String() != pre.String() {
+					bad("a failed authorization call changed the grant")
+				}
+				return "ok:failed"
 			}
 			switch method {
 			case "approve":
@@ -486,6 +543,7 @@ func (e *env) opsB(w *world.World, depth int, path []string) []engine.Op {
 	authOp("increase(3)", "increaseAllowance", 3)
 	authOp("decrease(3)", "decreaseAllowance", 3)
 	authOp("decrease(100)", "decreaseAllowance", 100)
+	authOp("decrease(all)", "decreaseAllowance", -1)
 	authOp("revoke", "revoke", 0)
 	add("nativeGrant(V1only,10)", func(p []string, res *engine.Result) string {
 		lim := sdk.NewInt64Coin(world.Denom, 10)
@@ -501,74 +559,91 @@ func (e *env) opsB(w *world.World, depth int, path []string) []engine.Op {
 		w.App.BaseApp.VerifSetDeliverCtx(w.App.BaseApp.VerifDeliverCtx().WithBlockHeader(w.Header))
 		return "ok"
 	})
-	for _, vi := range []int{0, 1} {
-		for _, amt := range []int64{4, 5, 6, 11} {
-			for _, bubble := range []bool{false, true} {
-				vi, amt, bubble := vi, amt, bubble
-				if vi == 1 && amt != 4 {
-					continue
-				}
-				mode := "swallow"
-				if bubble {
-					mode = "bubble"
-				}
-				add(fmt.Sprintf("spend(V%d,%d,%s)", vi+1, amt, mode), func(p []string, res *engine.Result) string {
-					val := w.ValAddr[vi]
-					pre := e.grantOf()
-					preDel := e.delegated(val)
-					lf := &calltree.Leaf{Name: "staking.delegate", To: precomp.StakingAddr, Data: precomp.MustPack(st, "delegate", w.Eth[f.S], val.String(), big.NewInt(amt))}
-					cF := &calltree.Frame{ID: 0, End: "stop", Items: []calltree.Item{{Leaf: lf, Bubble: bubble}}}
-					calltree.Install(w, w.App.BaseApp.VerifDeliverCtx(), cF, nil)
-					e.sendTx(cF.Addr(), nil)
-					post := e.grantOf()
-					spent := e.delegated(val).Sub(preDel)
-					res.Evaluations++
-					cls := "limited"
-					switch {
-					case !pre.exists:
-						cls = "absent"
-					case pre.expired:
-						cls = "expired"
-					case !pre.vals[val.String()] && len(pre.vals) > 0:
-						cls = "wrongval"
-					case pre.unlimited:
-						cls = "unlimited"
+	for _, kind := range []string{"delegate", "undelegate"} {
+		for _, vi := range []int{0, 1} {
+			for _, amt := range []int64{4, 5, 6, 11} {
+				for _, bubble := range []bool{false, true} {
+					kind, vi, amt, bubble := kind, vi, amt, bubble
+					if vi == 1 && amt != 4 {
+						continue
 					}
-					viol := func(breach, what string) {
-						res.AddViolation(engine.Violation{Signature: fmt.Sprintf("C04|op=spend|grant=%s|swallowed=%v|breach=%s", cls, !bubble, breach), What: what, Path: p,
-							Detail: map[string]any{"grant_before": pre.String(), "grant_after": post.String(), "spent": spent.String(), "requested": amt}})
+					if kind == "undelegate" && (vi == 1 || amt == 11) {
+						continue
 					}
-					if spent.IsZero() {
-						if post.String() != pre.String() {
-							viol("changed-without-spend", "the grant changed although nothing was delegated")
+					mode := "swallow"
+					if bubble {
+						mode = "bubble"
+					}
+					name := fmt.Sprintf("spend(V%d,%d,%s)", vi+1, amt, mode)
+					url := delegateURL
+					if kind == "undelegate" {
+						name = fmt.Sprintf("unbond(V%d,%d,%s)", vi+1, amt, mode)
+						url = undelegateURL
+					}
+					add(name, func(p []string, res *engine.Result) string {
+						val := w.ValAddr[vi]
+						pre := e.grantOfURL(url)
+						preDel := e.delegated(val)
+						lf := &calltree.Leaf{Name: "staking." + kind, To: precomp.StakingAddr, Data: precomp.MustPack(st, kind, w.Eth[f.S], val.String(), big.NewInt(amt))}
+						cF := &calltree.Frame{ID: 0, End: "stop", Items: []calltree.Item{{Leaf: lf, Bubble: bubble}}}
+						calltree.Install(w, w.App.BaseApp.VerifDeliverCtx(), cF, nil)
+						e.sendTx(cF.Addr(), nil)
+						post := e.grantOfURL(url)
+						spent := e.delegated(val).Sub(preDel)
+						if kind == "undelegate" {
+							spent = spent.Neg()
 						}
-						return "ok:rejected"
-					}
-					res.Nontrivial[fmt.Sprintf("%s|%d|%s", pre.String(), amt, mode)] = true
-					if !spent.Equal(sdkmath.NewInt(amt)) {
-						viol("amount", "the delegation differs from the requested amount")
-					}
-					covering := pre.exists && !pre.expired && (len(pre.vals) == 0 || pre.vals[val.String()]) && (pre.unlimited || pre.limit.GTE(sdkmath.NewInt(amt)))
-					if !covering {
-						b := "nogrant"
-						if pre.exists && !pre.expired && !pre.unlimited && pre.limit.LT(sdkmath.NewInt(amt)) {
-							b = "overspend"
+						res.Evaluations++
+						cls := "limited"
+						switch {
+						case !pre.exists:
+							cls = "absent"
+						case pre.expired:
+							cls = "expired"
+						case !pre.vals[val.String()] && len(pre.vals) > 0:
+							cls = "wrongval"
+						case pre.unlimited:
+							cls = "unlimited"
 						}
-						viol(b, "a contract delegated the signer's coins without a live grant covering validator and amount")
-						return "ok:spent"
-					}
-					if !pre.unlimited {
-						want := pre.limit.SubRaw(amt)
-						if want.IsZero() {
-							if post.exists {
-								viol("notreduced", "a fully used grant was not deleted")
+						viol := func(breach, what string) {
+							res.AddViolation(engine.Violation{Signature: fmt.Sprintf("C04|op=%s|grant=%s|swallowed=%v|breach=%s", map[string]string{"delegate": "spend", "undelegate": "unbond"}[kind], cls, !bubble, breach), What: what, Path: p,
+								Detail: map[string]any{"grant_before": pre.String(), "grant_after": post.String(), "spent": spent.String(), "requested": amt}})
+						}
+						if post.exists && pre.exists && post.expiry != pre.expiry {
+							viol("expiry-changed", "using a grant changed its expiration")
+						}
+						if spent.IsZero() {
+							if post.String() != pre.String() {
+								viol("changed-without-spend", "the grant changed although nothing was moved")
 							}
-						} else if !post.exists || post.unlimited || !post.limit.Equal(want) {
-							viol("notreduced", "a limited grant was not reduced by exactly the amount used")
+							return "ok:rejected"
 						}
-					}
-					return "ok:spent"
-				})
+						res.Nontrivial[fmt.Sprintf("%s|%s|%d|%s", kind, pre.String(), amt, mode)] = true
+						if !spent.Equal(sdkmath.NewInt(amt)) {
+							viol("amount", "the stake moved differs from the requested amount")
+						}
+						covering := pre.exists && !pre.expired && (len(pre.vals) == 0 || pre.vals[val.String()]) && (pre.unlimited || pre.limit.GTE(sdkmath.NewInt(amt)))
+						if !covering {
+							b := "nogrant"
+							if pre.exists && !pre.expired && !pre.unlimited && pre.limit.LT(sdkmath.NewInt(amt)) {
+								b = "overspend"
+							}
+							viol(b, "a contract moved the signer's stake without a live grant covering message type, validator and amount")
+							return "ok:spent"
+						}
+						if !pre.unlimited {
+							want := pre.limit.SubRaw(amt)
+							if want.IsZero() {
+								if post.exists {
+									viol("notreduced", "a fully used grant was not deleted")
+								}
+							} else if !post.exists || post.unlimited || !post.limit.Equal(want) {
+								viol("notreduced", "a limited grant was not reduced by exactly the amount used")
+							}
+						}
+						return "ok:spent"
+					})
+				}
 			}
 		}
 	}
